@@ -110,11 +110,13 @@ func build(cfgName string) explore.System {
 		report.Fatal("bad config name %q", cfgName)
 	}
 	s := &sys{defs: map[string]opDef{}, nameA: "/a"}
-	link := false
+	link, tiny := false, false
 	for _, x := range strings.Fields(cfgName)[4:] {
 		switch x {
 		case "link":
 			link = true // arrivals go through a real NDNLPLinkService (fwsim.Config.RealLinkService)
+		case "tiny":
+			tiny = true // a handful of interacting ops, for the deep search without de-duplication
 		case "t1":
 			s.t1 = true
 			s.nameA = fwsim.New(fwsim.Config{ThreadID: 1}).NameForThread("a")
@@ -188,6 +190,17 @@ func build(cfgName string) explore.System {
 	s.addI(iOp{face: fwsim.L1, name: "/localhost/x", hint: "/a"})
 	s.addI(iOp{face: fwsim.L1, name: "/localhost/x", hint: "/a", nh: fwsim.N2})
 	s.addI(iOp{face: fwsim.L1, name: A, hint: "/localhost/h"})
+	if tiny {
+		keep := []string{"I(L1," + probeName + ",plain)", "I(N2," + A + ",plain)", "I(N2,/,cbp)", "D(L5," + probeName + ",none)", "D(L5,/localhost/x,echo0)", "D(N2,/localhost/x,echo0)", "T(100ms)"}
+		s.names, s.allOps = nil, nil
+		for _, n := range keep {
+			if _, ok := s.defs[n]; !ok {
+				report.Fatal("tiny alphabet: op %q does not exist", n)
+			}
+			s.names = append(s.names, n)
+			s.allOps = append(s.allOps, explore.Op{Name: n})
+		}
+	}
 	return s
 }
 
@@ -462,6 +475,10 @@ func configs(th bool) []explore.Config {
 		add("br", "cs1", "tree link", 4)  // arrivals through the real NDNLPLinkService
 		add("mc", "cs1", "tree t1", 5)    // the driven thread is thread 1 of 2
 		add("br", "cs1", "ht link t1", 4) // both
+		// audit of the canonical form, and a deep history search, both WITHOUT de-duplication
+		c = append(c, explore.Config{Name: "audit(no dedup) leaky br cs0 ht", BuildName: "leaky br cs0 ht", MaxDepth: devDepth(3), MaxDev: -1, NoDedup: true})
+		c = append(c, explore.Config{Name: "history search (no dedup) leaky br cs1 tree tiny", BuildName: "leaky br cs1 tree tiny", MaxDepth: devDepth(6), MaxDev: -1, NoDedup: true})
+		c = append(c, explore.Config{Name: "history search (no dedup) leaky mc cs0 ht tiny", BuildName: "leaky mc cs0 ht tiny", MaxDepth: devDepth(6), MaxDev: -1, NoDedup: true})
 		add("br", "cs0", "ht", 5)
 		add("mc", "cs0", "ht", 5)
 		add("mc", "cs1", "tree", 6)
@@ -474,6 +491,8 @@ func configs(th bool) []explore.Config {
 				add(st, cs, fib, 7)
 			}
 		}
+		c = append(c, explore.Config{Name: "history search (no dedup) leaky br cs1 " + fib + " tiny", BuildName: "leaky br cs1 " + fib + " tiny", MaxDepth: 7, MaxDev: -1, NoDedup: true})
+		c = append(c, explore.Config{Name: "history search (no dedup) leaky mc cs0 " + fib + " tiny", BuildName: "leaky mc cs0 " + fib + " tiny", MaxDepth: 7, MaxDev: -1, NoDedup: true})
 		add("br", "cs1", fib+" link", 6)
 		add("mc", "cs1", fib+" t1", 6)
 		add("mc", "cs0", fib+" link t1", 6)
